@@ -4,6 +4,7 @@ import (
 	"fmt"
 	"go/constant"
 	"go/token"
+	"go/types"
 	"sort"
 
 	"golang.org/x/tools/go/ssa"
@@ -176,49 +177,81 @@ func checkCloseDiscipline(c *core.Ctx, p *progFacts, rule string, f *ssa.Functio
 				continue
 			}
 			C := cs[0]
-			// the receive that controls this close
+			// the receive that controls this close: the nearest one on the way back from the close along the dominator
+			// chain - a select case whose taken branch leads here, a bare receive earlier in the same block, or a call of a
+			// helper that waits on a completion channel handed to it (`if err := waitFor(done, cErr); err != nil { return err }`)
 			var D *ssa.MakeChan
-			for d := b.Idom(); d != nil && D == nil; d = d.Idom() {
-				if len(d.Instrs) == 0 {
-					continue
+			helperWait := func(ci *ssa.Call) *ssa.MakeChan {
+				cal := ci.Common().StaticCallee()
+				if cal == nil || !inRepo(cal) {
+					return nil
 				}
-				iff, ok := d.Instrs[len(d.Instrs)-1].(*ssa.If)
-				if !ok {
-					continue
-				}
-				cond, ok := iff.Cond.(*ssa.BinOp)
-				if !ok || cond.Op != token.EQL {
-					continue
-				}
-				ex, ok := cond.X.(*ssa.Extract)
-				k, ok2 := cond.Y.(*ssa.Const)
-				if !ok || !ok2 || ex.Index != 0 || k.Value == nil || k.Value.Kind() != constant.Int {
-					continue
-				}
-				sel, ok := ex.Tuple.(*ssa.Select)
-				if !ok {
-					continue
-				}
-				if !(d.Succs[0] == b || d.Succs[0].Dominates(b)) {
-					continue
-				}
-				idx, _ := constant.Int64Val(k.Value)
-				if int(idx) < len(sel.States) && sel.States[idx].Dir == 2 /* types.RecvOnly */ {
-					if ds := p.chanSources(sel.States[idx].Chan); len(ds) == 1 {
-						D = ds[0]
+				for k, prm := range cal.Params {
+					ch, ok := prm.Type().Underlying().(*types.Chan)
+					if !ok || isErrorType(ch.Elem()) || k >= len(ci.Common().Args) {
+						continue
 					}
-				}
-			}
-			if D == nil {
-				// a bare receive earlier in the same block
-				for _, pi := range b.Instrs {
-					if pi == ins {
-						break
-					}
-					if u, ok := pi.(*ssa.UnOp); ok && u.Op == token.ARROW {
-						if ds := p.chanSources(u.X); len(ds) == 1 {
-							D = ds[0]
+					receives := false
+					allInstrs(cal, func(_ *ssa.Function, in ssa.Instruction) {
+						switch x := in.(type) {
+						case *ssa.UnOp:
+							if x.Op == token.ARROW && x.X == ssa.Value(prm) {
+								receives = true
+							}
+						case *ssa.Select:
+							for _, st := range x.States {
+								if st.Dir == types.RecvOnly && st.Chan == ssa.Value(prm) {
+									receives = true
+								}
+							}
 						}
+					})
+					if receives {
+						if ds := p.chanSources(ci.Common().Args[k]); len(ds) == 1 {
+							return ds[0]
+						}
+					}
+				}
+				return nil
+			}
+			for blk, first := b, true; blk != nil && D == nil; blk, first = blk.Idom(), false {
+				end := len(blk.Instrs)
+				if first {
+					for k, pi := range blk.Instrs {
+						if pi == ins {
+							end = k
+						}
+					}
+				} else if end > 0 {
+					// a select case whose branch dominates the close
+					if iff, ok := blk.Instrs[end-1].(*ssa.If); ok {
+						if cond, ok := iff.Cond.(*ssa.BinOp); ok && cond.Op == token.EQL {
+							ex, ok1 := cond.X.(*ssa.Extract)
+							k, ok2 := cond.Y.(*ssa.Const)
+							if ok1 && ok2 && ex.Index == 0 && k.Value != nil && k.Value.Kind() == constant.Int {
+								if sel, ok := ex.Tuple.(*ssa.Select); ok && (blk.Succs[0] == b || blk.Succs[0].Dominates(b)) {
+									idx, _ := constant.Int64Val(k.Value)
+									if int(idx) < len(sel.States) && sel.States[idx].Dir == types.RecvOnly {
+										if ds := p.chanSources(sel.States[idx].Chan); len(ds) == 1 {
+											D = ds[0]
+											break
+										}
+									}
+								}
+							}
+						}
+					}
+				}
+				for k := end - 1; k >= 0 && D == nil; k-- {
+					switch x := blk.Instrs[k].(type) {
+					case *ssa.UnOp:
+						if first && x.Op == token.ARROW {
+							if ds := p.chanSources(x.X); len(ds) == 1 {
+								D = ds[0]
+							}
+						}
+					case *ssa.Call:
+						D = helperWait(x)
 					}
 				}
 			}
